@@ -6,7 +6,16 @@ name, prop, src, dest, detected, checks, needs = sys.argv[1:8]
 notes = sys.argv[8] if len(sys.argv) > 8 else ""
 d = os.path.join("/verif/seeded", name); os.makedirs(d, exist_ok=True)
 shutil.copy(os.path.join(src, "patch.diff"), d)
-shutil.copy(os.path.join(src, "demo_test.go"), os.path.join(d, "demo_test.go.txt"))
+if os.path.exists(os.path.join(src, "demo_test.go")):
+    shutil.copy(os.path.join(src, "demo_test.go"), os.path.join(d, "demo_test.go.txt"))
+if os.path.isdir(os.path.join(src, "demo")):
+    # script-style demonstration: demo/run.sh builds frugal from $WORKTREE and exits non-zero when the property is broken
+    shutil.rmtree(os.path.join(d, "demo"), ignore_errors=True)
+    shutil.copytree(os.path.join(src, "demo"), os.path.join(d, "demo"))
+    for root, _, files in os.walk(os.path.join(d, "demo")):
+        for f in files:
+            if f.endswith(".go"):
+                os.rename(os.path.join(root, f), os.path.join(root, f + ".txt"))
 if os.path.exists(os.path.join(src, "notes.md")):
     shutil.copy(os.path.join(src, "notes.md"), os.path.join(d, "author_notes.md"))
 meta = {
@@ -14,7 +23,7 @@ meta = {
   "needs_to_manifest": needs,
   "origin": "written by an independent sub-agent that saw only the property record and a scratch worktree",
   "confirmed_by_me": {
-    "procedure": "lib/seedtest.sh: apply patch.diff to the scratch worktree /tmp/mrepo at /repo's HEAD; run `go test -vet=off -count=1 ./...` in the worktree root and in lib/go (must pass); place the demonstration at %s and run `go test -run Seed` (must fail); reverse the patch, rerun the demonstration (must pass); re-apply and run the named checks with VERIF_REPO=/tmp/mrepo" % dest,
+    "procedure": ("script-style: apply patch.diff in the scratch worktree /tmp/mrepo, run both repository test commands (must pass), run demo/run.sh with WORKTREE=/tmp/mrepo (must exit non-zero), reverse the patch and rerun (must exit 0), re-apply and run the named checks with VERIF_REPO=/tmp/mrepo" if dest == "demo/run.sh" else "") or "lib/seedtest.sh: apply patch.diff to the scratch worktree /tmp/mrepo at /repo's HEAD; run `go test -vet=off -count=1 ./...` in the worktree root and in lib/go (must pass); place the demonstration at %s and run `go test -run Seed` (must fail); reverse the patch, rerun the demonstration (must pass); re-apply and run the named checks with VERIF_REPO=/tmp/mrepo" % dest,
     "repo_tests_with_change": "pass", "demo_with_change": "fails", "demo_without_change": "passes",
     "repo_head": subprocess.run(["git","-C","/repo","rev-parse","--short","HEAD"],capture_output=True,text=True).stdout.strip(),
   },
